@@ -146,6 +146,8 @@ func (r *Router) handleHTTPRequest(ctx *Context) {
 			if ret := recover(); ret != nil {
 				ctx.Set(CTXRecoverResult, ret)
 				r.OnPanic(ctx)
+				// the panic skipped the normal end of the dispatch, write the header here.
+				ctx.writer.ensureWriteHeader()
 			}
 		}()
 	}
